@@ -135,13 +135,17 @@ namespace occa {
 
     std::stringstream ss;
 
+    // The iterator stands for idcPtr[i]: a define instead of a declaration inside
+    // the loop, which would keep a tiled loop nested in it from floating its @outer loop up
+    scope.props["defines"][iteratorName] = (
+      iteratorPtrName + "[" + iteratorIndexName + "]"
+    );
+
     // for (int i = 0; i < N; i += 1; @attr) {
-    //   idx = idcPtr[i];
     ss << "for (int " << iteratorIndexName << " = 0;"
        << " " << iteratorIndexName << " < " << iteratorLengthName << ";"
        << " ++" << iteratorIndexName << ";"
-       << " " << forAttribute << ") {"
-       << "  const int " << iteratorName << " = " << iteratorPtrName << "[" << iteratorIndexName << "];";
+       << " " << forAttribute << ") {";
 
     return ss.str();
   }
